@@ -86,9 +86,9 @@ PROPS = {
         rule=BLOCK_RULE, assumptions=BLOCK_ASSUME + ['bank keeps supply = sum of balances (x/bank invariant, trusted); per-tx supply and balance deltas are reconstructed from the bank events of each ExecTxResult'],
     ),
     'C05': dict(
-        lean_modules=['Model.FeeMarket', 'Model.Block', 'Properties.C05', 'Facts.Block', 'Facts.C09', 'Facts.TieFee', 'Facts.TieTransition', 'Facts.TieMeta'],
+        lean_modules=['Model.FeeMarket', 'Model.Block', 'Properties.C05', 'Facts.Block', 'Facts.C09', 'Facts.TieFee', 'Facts.TieTransition', 'Facts.TieGas', 'Facts.TieMeta'],
         facts=['*'],
-        theorems=['tie_effective_gas_price', 'tie_effective_fee', 'tie_refund_gas', 'tie_refund_is_model', 'tie_gas_used', 'tie_buy_gas', 'tie_intrinsic_gas', 'tie_intrinsic_ge_txgas', 'fact_translated_all', 'C05_charge', 'C05_charge_self', 'C05_rejected_free', 'C05_refund_cap', 'C05_bounds', 'C05_result_eq_receipt',
+        theorems=['tie_effective_gas_price', 'tie_effective_fee', 'tie_refund_gas', 'tie_refund_is_model', 'tie_gas_used', 'tie_buy_gas', 'tie_intrinsic_gas', 'tie_intrinsic_ge_txgas', 'tie_reset_reads_gas_used', 'tie_reset_effects', 'tie_consume_gas', 'tie_refund_gas_meter', 'tie_add_overflow', 'tie_evm_base_fee', 'fact_translated_all', 'C05_charge', 'C05_charge_self', 'C05_rejected_free', 'C05_refund_cap', 'C05_bounds', 'C05_result_eq_receipt',
                   'C05_collector_gain', 'C05_one_price', 'stepEth_cases', 'fact_refund_quotient', 'fact_min_gas', 'fact_gas_meter_reset', 'fact_one_base_fee'],
         engines=[dict(name='block', test='TestEngineBlock', quick=500, thorough=6000, thorough_seeds=3)],
         rule=BLOCK_RULE, assumptions=BLOCK_ASSUME + ['C05_bounds lower bound assumes intrinsic + refundCounter <= gas used before refund (geth gas table: every refunded unit was paid for); E-block checks intrinsic <= gasUsed on every committed tx'],
@@ -143,9 +143,10 @@ PROPS = {
 
 ANTE_RULE = 'random transaction shapes (Ethereum-lane base tx with 0-2 of 20 perturbations: memo, timeout, fee amount/denoms, gas limit, extension options of three kinds, non-critical options, signatures, signer infos, payer, granter, unprotected, contract sender, low gas, tip>cap, huge gas limit, creation; Cosmos-lane txs with 1-3 message trees of exec depth 0-5 over send/grant/vesting/eth leaves, signed) x 4 modes through the real Simulate / CheckTx(recheck, new) / FinalizeBlock; non-trivial = every line; distinct by op-line hash'
 PROPS['C07'] = dict(
-    lean_modules=['Model.Ante', 'Properties.C07', 'Facts.Ante', 'Facts.TieAnte', 'Facts.TieMeta'],
+    lean_modules=['Model.Ante', 'Properties.C07', 'Facts.Ante', 'Facts.TieAnte', 'Facts.TieAnteChain', 'Facts.TieAnteBasic', 'Facts.TieMeta'],
     facts=['*'],
-    theorems=['tie_has_single_eth', 'tie_is_ethereum_tx', 'fact_translated_all', 'C07_eth_lane', 'C07_recheck', 'C07_cosmos_lane', 'C07_exclusive', 'C07_handler_unreachable', 'C16_gate',
+    theorems=['tie_has_single_eth', 'tie_is_ethereum_tx', 'tie_ext_opt', 'tie_timeout_height', 'tie_memo', 'tie_reject_eth_msgs', 'tie_reject_eth_msgs_model', 'tie_vesting_gate', 'tie_vesting_gate_model',
+              'tie_validate_basic', 'tie_validate_basic_shape', 'tie_validate_basic_recheck', 'tie_validate_basic_mixed', 'coinsEqual_newCoins1', 'fact_translated_all', 'fact_uninterpreted', 'C07_eth_lane', 'C07_recheck', 'C07_cosmos_lane', 'C07_exclusive', 'C07_handler_unreachable', 'C16_gate',
               'checkMsgs_sound', 'checkTail_sound', 'checkMsg_sound', 'ethLane_none', 'cosmosLane_none', 'vestingGate_sound',
               'fact_ante_chain', 'fact_disabled_list', 'fact_nested_cap'],
     engines=[dict(name='ante', test='TestEngineAnte', quick=350, thorough=4000, thorough_seeds=3)],
@@ -157,9 +158,9 @@ PROPS['C07'] = dict(
 )
 
 PROPS['C16'] = dict(
-    lean_modules=['Model.Ante', 'Model.VAuth', 'Properties.C07', 'Properties.C16', 'Facts.Ante', 'Facts.VAuth', 'Facts.TieAnte'],
+    lean_modules=['Model.Ante', 'Model.VAuth', 'Properties.C07', 'Properties.C16', 'Facts.Ante', 'Facts.VAuth', 'Facts.TieAnte', 'Facts.TieAnteChain', 'Facts.TieVAuth', 'Facts.TieMeta'],
     facts=['*'],
-    theorems=['tie_has_single_eth', 'C16_gate', 'C16_proof_sound', 'C16_cost', 'C16_final', 'C16_reject_noop', 'C16_stored_signed', 'sound_step', 'final_step',
+    theorems=['tie_has_single_eth', 'tie_vesting_gate', 'tie_vesting_gate_model', 'goGate_model', 'tie_submit_proof', 'tie_submit_rejected_no_effect', 'tie_submit_ok', 'tie_submit_save_last', 'fact_translated_all', 'fact_uninterpreted', 'C16_gate', 'C16_proof_sound', 'C16_cost', 'C16_final', 'C16_reject_noop', 'C16_stored_signed', 'sound_step', 'final_step',
               'genesis_sound', 'vestingGate_sound', 'C07_cosmos_lane', 'checkMsgs_sound',
               'fact_vauth_cost', 'fact_vauth_message', 'fact_disabled_list', 'fact_ante_chain', 'fact_nested_cap'],
     engines=[dict(name='vauth', test='TestEngineVauth', quick=300, thorough=4000, thorough_seeds=3),
@@ -230,9 +231,9 @@ PROPS['C19'] = dict(
 )
 
 PROPS['C20'] = dict(
-    lean_modules=['Model.EventSys', 'Model.Block', 'Model.FeeMarket', 'Properties.C06', 'Properties.C09', 'Properties.C13', 'Model.LogFilter', 'Properties.C20', 'Properties.C20Conc', 'Properties.C20Filter', 'Facts.EventSys', 'Facts.C09', 'Facts.Panics', 'Facts.TieFeeMarket', 'Facts.TieQuery', 'Facts.TieMeta', 'Facts.KeyCapacity'],
+    lean_modules=['Model.EventSys', 'Model.Block', 'Model.FeeMarket', 'Properties.C06', 'Properties.C09', 'Properties.C13', 'Model.LogFilter', 'Properties.C20', 'Properties.C20Conc', 'Properties.C20Filter', 'Facts.EventSys', 'Facts.C09', 'Facts.Panics', 'Facts.TieFeeMarket', 'Facts.TieQuery', 'Facts.TieGas', 'Facts.TieMeta', 'Facts.KeyCapacity'],
     facts=['*'],
-    theorems=['fact_key_prefixes_not_shared_buffers', 'tie_calculate_base_fee', 'tie_bin_search_total', 'fact_translated_all', 'C20_rejected_is_noop', 'C20_ante_panic_charges_block_gas_only', 'C20_dropped_is_noop', 'C20_isolation', 'C20_isolation_replace', 'runItems_append',
+    theorems=['fact_key_prefixes_not_shared_buffers', 'tie_consume_gas', 'tie_refund_gas_meter', 'tie_calculate_base_fee', 'tie_bin_search_total', 'fact_translated_all', 'C20_rejected_is_noop', 'C20_ante_panic_charges_block_gas_only', 'C20_dropped_is_noop', 'C20_isolation', 'C20_isolation_replace', 'runItems_append',
               'C09_total', 'C09_total_no_divzero', 'C09_zero_target_keeps', 'C13_endBlock_total', 'C13_inv_block',
               'C20_no_send_on_closed', 'inv_step', 'inv_run', 'C20_original_crashes', 'C20_original_drops', 'C20_lock_needed', 'C20_index_needed',
               'C20_filter_total', 'C20_filterLogs_total', 'C20_guard_needed', 'topicLoop_total', 'fact_filterlogs_guards', 'fact_basefee_guards', 'fact_one_base_fee', 'fact_maxgas_guard', 'fact_block_panic_sites', 'fact_consume_locks_across_send', 'fact_install_shape', 'fact_uninstall_shape', 'fact_join_indexes', 'fact_context_guarded'],
@@ -247,9 +248,9 @@ PROPS['C20'] = dict(
 )
 
 PROPS['C17'] = dict(
-    lean_modules=['Model.Cpc', 'Model.CreateAddr', 'Properties.C17', 'Properties.C13Create', 'Facts.CpcRegistry'],
+    lean_modules=['Model.Cpc', 'Model.CreateAddr', 'Properties.C17', 'Properties.C13Create', 'Facts.CpcRegistry', 'Facts.TieCpc', 'Facts.TieMeta'],
     facts=['*'],
-    theorems=['C17_registry_preimages_distinct', 'C13_create_roundtrip', 'C17_type_immutable', 'C17_version_monotone', 'C17_only_whitelisted_add', 'C17_inv_run', 'C17_one_erc20_per_denom', 'C17_exposure',
+    theorems=['tie_validate_deployer', 'tie_empty_whitelist_refuses', 'fact_translated_all', 'C17_registry_preimages_distinct', 'C13_create_roundtrip', 'C17_type_immutable', 'C17_version_monotone', 'C17_only_whitelisted_add', 'C17_inv_run', 'C17_one_erc20_per_denom', 'C17_exposure',
               'C17_genesis_inv', 'inv_step', 'step_cases', 'step_keeps_none', 'fact_newevm_wires_all_with_disabled'],
     engines=[dict(name='cpc', test='TestEngineCpc', quick=600, thorough=12000, thorough_seeds=3)],
     rule='epochs of [InitGenesis on a wiped cpc store with random flags and whitelist; 8-32 random ops: deploy ERC-20 (6 denominations incl. no-supply and invalid, odd decimals, empty symbol), deploy staking, update params (authority or not, versions 0/1/2, duplicate deployers), keeper-level enable/disable] through the real message server / keeper with per-op cache contexts; after each op the registry, reverse index, params, module sequence and the set of addresses callable through ApplyMessage and through the EthCall query path are compared; non-trivial = every line; distinct by op-line hash',
